@@ -393,6 +393,7 @@ class StringDataType(ElementaryDataType):
 
     len_type = None  #: data type of the string length
     encoding = "iso-8859-1"  #: encoding of string data
+    char_size = 1  #: bytes per character
 
     @classmethod
     def _encode(cls, value: str, *args, **kwargs) -> bytes:
@@ -403,7 +404,7 @@ class StringDataType(ElementaryDataType):
         str_len = cls.len_type.decode(stream)
         if str_len == 0:
             return ""
-        str_data = cls._stream_read(stream, str_len)
+        str_data = cls._stream_read(stream, str_len * cls.char_size)
 
         return str_data.decode(cls.encoding)
 
@@ -526,6 +527,7 @@ class STRING2(StringDataType):
     code = 0xD5  #: 0xD5
     len_type = UINT
     encoding = "utf-16-le"
+    char_size = 2
 
 
 class FTIME(DINT):
@@ -584,6 +586,8 @@ class STRINGN(StringDataType):
         except KeyError as err:
             raise DataError(f"Unsupported character size: {char_size}") from err
         else:
+            if char_count == 0:
+                return ""
             data = cls._stream_read(stream, char_count * char_size)
 
             return data.decode(encoding)
